@@ -44,3 +44,10 @@ add("C06", "exploration",
     thorough=[st("vh-core"), st("vh-core", mode="miri", timeout=3 * 3600)],
     design_ref="DESIGN.md §1 C06",
     assumptions=["An author key with an empty inner map is not an (author, log) pair"])
+
+
+# Per-harness fragments: /verif/table.d/*.py, each calling add(...) / st(...).
+import glob as _glob
+import os as _os
+for _f in sorted(_glob.glob(_os.path.join(_os.path.dirname(_os.path.abspath(__file__)), "table.d", "*.py"))):
+    exec(compile(open(_f).read(), _f, "exec"))
